@@ -109,6 +109,21 @@ func (s *step) node() map[string]interface{} {
 
 func I(x *big.Int) sdkmath.Int { return sdkmath.NewIntFromBigInt(x) }
 
+// capOrderer places orders like the default orderer and panics once a single generator call has placed more than max orders.
+type capOrderer struct {
+	n, max int
+	cut    bool
+}
+
+func (c *capOrderer) Order(dir ramm.OrderDirection, price sdkmath.LegacyDec, amt sdkmath.Int) ramm.Order {
+	c.n++
+	if c.n > c.max {
+		c.cut = true
+		panic("pool-order generator does not make progress")
+	}
+	return ramm.DefaultOrderer.Order(dir, price, amt)
+}
+
 func guard(s *step, f func()) {
 	defer func() {
 		if x := recover(); x != nil {
@@ -702,10 +717,19 @@ func sharesMain(args []string) int {
 					price := p.Price()
 					lo, hi := ltypes.PriceLimits(price, dec("0.1"), 4)
 					var orders []ramm.Order
-					if rng.Intn(2) == 0 {
-						orders = ramm.PoolSellOrders(p, ramm.DefaultOrderer, lo, hi, 4)
+					// the pool-order generators loop until their tick leaves [lo, hi]; a counting orderer bounds the number of orders a single
+					// call may place (the generators recover from a panic of the orderer and return nothing), so a call that does not make
+					// progress is cut off and reported instead of exhausting memory
+					co := &capOrderer{max: 200000}
+					sell := rng.Intn(2) == 0
+					if sell {
+						orders = ramm.PoolSellOrders(p, co, lo, hi, 4)
 					} else {
-						orders = ramm.PoolBuyOrders(p, ramm.DefaultOrderer, lo, hi, 4)
+						orders = ramm.PoolBuyOrders(p, co, lo, hi, 4)
+					}
+					if co.cut {
+						fmt.Fprintf(os.Stderr, "amm shares: pool-order generator cut off after %d orders: sell=%v rx=%s ry=%s ps=%s min=%s max=%s price=%s lo=%s hi=%s\n",
+							co.n, sell, rx, ry, ps, mn, mx, price, lo, hi)
 					}
 					if len(orders) == 0 {
 						return
